@@ -62,7 +62,7 @@ def bounds(tier, seed):
         "N_hamiltonian": [1, 2, 3, 4] if tier == "quick" else [1, 2, 3, 4, 5, 6],
         "N_lindbladian": [1, 2, 3] if tier == "quick" else [1, 2, 3, 4],
         "omega_patterns": ["distinct", "with_zero", "all_zero"],
-        "phase_patterns": ["all_zero", "one_nonzero", "all_nonzero", "mixed_with_exact_zero"],
+        "phase_patterns": ["all_zero", "one_nonzero", "all_nonzero", "mixed_with_exact_zero", "zero_and_pi", "all_pi"],
         "interaction_patterns": "all 2^(N(N-1)/2) (N<=4), N=5,6: 0, full, and the N single-pair patterns' complement",
         "jump_lists": list(_jump_lists(seed)),
     }
@@ -107,6 +107,8 @@ def _params(case):
         "one_nonzero": [0.0] * (n - 1) + [phv[-1]],
         "all_nonzero": phv,
         "mixed_with_exact_zero": [0.0 if k % 2 == 0 else v for k, v in enumerate(phv)],
+        "zero_and_pi": [float(np.pi) if k % 2 == 0 else 0.0 for k in range(n)],  # sin(phi) = 0 everywhere, cos(phi) = -1 on some atoms
+        "all_pi": [float(np.pi)] * n,
     }[case["phase"]]
     U = np.zeros((n, n))
     uv = vals[3 * n :]
